@@ -120,3 +120,49 @@ func removeEmptyParents(fs afero.Fs, objectPath string, root string) {
 		}
 	}
 }
+
+// validKey reports whether an object key can be stored under its own name in
+// a directory tree: every '/'-separated segment must be a real file name.
+// Keys with empty, "." or ".." segments (or a backslash, which some file
+// systems treat as a separator) would be cleaned into a different path and
+// could address another key, the bucket directory itself or another bucket.
+func validKey(key string) bool {
+	if key == "" || strings.ContainsAny(key, "\\\x00") {
+		return false
+	}
+	for _, segment := range strings.Split(key, "/") {
+		if segment == "" || segment == "." || segment == ".." {
+			return false
+		}
+	}
+	return true
+}
+
+func invalidKeyError(key string) error {
+	return gofakes3.ErrorInvalidArgument("key", key, "this backend stores keys as file paths: path segments must be non-empty and must not be '.' or '..'")
+}
+
+// keyConflict reports whether storing an object at objectPath would clash
+// with another key: the path is a directory (it is a prefix of other keys),
+// or one of its parent paths is a file (another key). A directory tree cannot
+// hold both, and replacing one by the other would destroy the other key.
+func keyConflict(fs afero.Fs, objectPath string) (bool, error) {
+	if isDir, err := afero.DirExists(fs, filepath.FromSlash(objectPath)); err != nil {
+		return false, err
+	} else if isDir {
+		return true, nil
+	}
+	for dir := path.Dir(objectPath); dir != "." && dir != "/"; dir = path.Dir(dir) {
+		stat, err := fs.Stat(filepath.FromSlash(dir))
+		if err == nil && !stat.IsDir() {
+			return true, nil
+		} else if err != nil && !os.IsNotExist(err) {
+			return false, err
+		}
+	}
+	return false, nil
+}
+
+func keyConflictError(key string) error {
+	return gofakes3.ErrorInvalidArgument("key", key, "this backend stores keys as file paths: a key cannot be both an object and a prefix of other objects")
+}
